@@ -16,7 +16,7 @@ MANIFEST = {
              'change), C08_assign_unit_any_layout (_assign_from_iloc_by_unit, column part: exactly the addressed columns replaced, the r-th addressed '
              'column by value column r, every other column identical with its dtype), C08_insert_any_layout (Frame._insert). The key conversion inside '
              'the models is the kernel util.slice_to_ascending_slice REGENERATED from /repo on every run (C08_asc_slice_correct, '
-             'C08_model_uses_regenerated_kernel) and the retain_key_order / key_to_ascending_key / normalise-negatives / Boolean-array decisions are constants regenerated from the AST (C08_keys_made_ascending_by_position) '
+             'C08_bloc_unit_cells_any_layout (_assign_from_bloc_by_unit: cells exact for every layout), C08_model_uses_regenerated_kernel) and the retain_key_order / key_to_ascending_key / normalise-negatives / Boolean-array decisions are constants regenerated from the AST (C08_keys_made_ascending_by_position) '
              '(Gen/Gen_c08.v): changing either breaks the proofs before any case runs. C08_drop_exact / C08_set_exact / C08_assign_exact read the '
              'specifications position by position. Refuted/C08.v: vm_compute witnesses that the guard of the theorems is necessary (known findings). '
              'Correspondence: the models (result columns, dtypes AND block layout, error class) and the specifications are evaluated inside Coq on '
@@ -26,8 +26,12 @@ MANIFEST = {
     'note': ('trusted: Coq kernel; the hand-written models SF/BlocksUpdate.v, SF/UpdateFrame.v (tied to /repo by the correspondence cases of the run and by '
              'the regenerated kernels/constants); py2v translator + PyDyn semantics for the regenerated kernels; harness; NumPy (row keys, np.delete, '
              'a[k] = v, astype, broadcasting, np.sort are not modelled: rows are a function mapped over the columns, broadcasting is done by NumPy in '
-             'the harness). Partial: assign by blocks (Frame values, get_block_match), the bloc forms, Series operations, relabel/rename and the label '
-             'alignment of Series/Frame values have specification-level checks (impl vs S) but no implementation-model theorem; the dtype of an '
+             'the harness). C08_bloc_unit_cells_any_layout / C08_bloc_unit_dtypes_single_column_blocks cover _assign_from_bloc_by_unit (cells for every layout; dtypes '
+             'only for one-column blocks: the whole-block cast is a known finding). Specification-level checks only (impl vs S, no model theorem): assign by '
+             'blocks (Frame values, get_block_match), bloc with Frame / coordinate-Series values, Series operations, Index / IndexHierarchy drop / astype / rename / '
+             'relabel, relabel_flat / level_add / level_drop, masked_array, label alignment of Series/Frame values. NOT exercised: relabel_shift_in / relabel_shift_out, '
+             'Frame.clip / Series.clip, the integer-target branch of _assign_from_iloc_by_blocks (unreachable from the public interface), IndexHierarchy._drop_loc, list '
+             'keys with repeated positions, hierarchies deeper than 2, datetime64 units other than D; the dtype of an '
              'ASSIGNED column is compared with the model (resolve_dtype, regenerated) but is not part of the specification (C07). The refinement '
              'theorems carry the guard walk_dom (a list key denotes pairwise different positions after normalisation of the negative ones; slice step <> 0) and "at least one block".'),
     'technique': 'refinement proof (model of the block walk = specification on the flattened columns, for all layouts) + regenerated kernels/constants + differential correspondence evaluated in Coq',
@@ -47,6 +51,8 @@ RULE = ('exhaustive small spaces first: every block layout (zoo.layouts_for) of 
         'Frame / coordinate Series; loc and getitem forms are derived from the positional key (labels, label slices, Boolean arrays, reordered Boolean '
         'Series); Series: every key kind incl. the slice grid on lengths 0..4; relabel / rename / insert_before / insert_after on Frame and Series; a '
         'every interface also on FrameGO receivers with the "nothing to do" shortcuts (empty keys, drop of nothing, astype of no column, identity relabel, same name, insertion of an empty Series / a column-less Frame): result is a new container by identity, shares no _blocks / _columns object, equals the static Frame\'s result, and growing result or receiver in place leaves the other untouched; Frame values of assign have blocks of different dtype and width in both orders; assign.bloc with coordinate Series / apply on every layout with a distinct value per cell; a '
+        'extension round (coverage-guided): Frame / Series values whose labels are the same / reordered / same-shape-partial / smaller / larger than the target\'s through iloc, loc, getitem and bloc (value Frames in 1-D, one 2-D or mixed blocks; the caller\'s bloc key array is re-checked after the call); '
+        'hierarchical index and columns (positions and HLoc), relabel_flat / level_add / level_drop, Index / IndexGO / IndexHierarchy drop, astype, rename, relabel; uint8 / bytes / datetime64[D] / timedelta64[D] / object columns, 0-row frames, FrameHE / SeriesHE receivers, masked_array; malformed bloc keys and key types; a '
         'malformed stream (out-of-range positions, absent labels, wrong mask length, step 0, wrong value shape: must raise, receiver untouched); a seeded '
         'random stream of 3..7-column mixed-dtype frames; kernel strata: util.slice_to_ascending_slice and TypeBlocks._cols_to_slice on exhaustive grids '
         'against the regenerated Gallina. A case is non-trivial when the key addresses at least one cell; distinct = distinct (call, frame, layout, key, value).')
@@ -189,6 +195,14 @@ def _cell(dt, i, j):
         return f'{"pqrstuv"[j]}{i}'
     if dt == OB:
         return (None, 'o', 7, 2.5, True)[(i + j) % 5]
+    if dt == np.dtype('uint8'):
+        return 200 + 10 * j + i
+    if dt == np.dtype('S2'):
+        return ('%s%d' % ('wxyz'[j % 4], i)).encode()
+    if dt == np.dtype('datetime64[D]'):
+        return np.datetime64('2020-01-01', 'D') + np.timedelta64(10 * j + i, 'D')
+    if dt == np.dtype('timedelta64[D]'):
+        return np.timedelta64(3 * j + i, 'D')
     raise ValueError(dt)
 
 
@@ -231,8 +245,19 @@ def frame_columns(fr):
     return out
 
 
+def cell_vals(a):
+    '''cells of a 1-D array; NumPy turns timedelta64[D] cells into datetime.timedelta when a column becomes object'''
+    import datetime
+    out = []
+    for v in lit.array_vals(a):
+        if isinstance(v, datetime.timedelta):
+            v = np.timedelta64(v.days, 'D')
+        out.append(v)
+    return out
+
+
 def cols_lit(fr):
-    return lit.lst([f'({lit.dtype(a.dtype)}, {lit.vlist(lit.array_vals(a))})' for a in frame_columns(fr)])
+    return lit.lst([f'({lit.dtype(a.dtype)}, {lit.vlist(cell_vals(a))})' for a in frame_columns(fr)])
 
 
 def oframe_lit(fr):
@@ -399,8 +424,8 @@ def frame_universe(ctx, extra_pools=()):
     'mid' = every key kind but slices (two more layouts per width), 'masks' = every subset of the columns (all the
     other layouts).  The thorough tier uses 'full' everywhere."""
     for pname, dts in POOLS.items():
-        if pname == 'F' and ctx.tier == 'quick' and 'F' not in extra_pools:
-            continue
+        if ctx.tier == 'quick' and ((pname == 'F' and 'F' not in extra_pools) or pname == 'S'):
+            continue            # quick tier: the UIIO pattern only in the thorough tier
         for m in range(0, 5):
             if pname != 'I' and (m < 2 or (ctx.tier == 'quick' and m < 4)):
                 continue
@@ -998,11 +1023,14 @@ def assign_bloc_cases(ctx):
                     mlit = lit.lst([lit.lst([lit.b(x) for x in col]) for col in emask])
                     vlit = lit.lst([lit.vlist(col) for col in vmat_])
                     sterm = f'S_frame_bloc_ok {oflit} {klit} {mlit} {vlit} {oframe_lit(out)}' if err is None else 'false'
+                    # element / array values: the model of _assign_from_bloc_by_unit (result columns, dtypes, layout)
+                    mterm = (f'res_same ofl_same (M_frame_bloc_unit {mframe_lit(f)} {klit} {vlit} {vdt_lit(value)} {RESOLVE}) {res_lit(out, err, ofl_lit)}'
+                             if vname in ('element', 'array') else None)
                     yield Case('api:frame.assign.bloc',
                                {'pool': pname, 'columns': m, 'rows': nrows, 'layout': zoo.layout_str(layout), 'call': f'f.assign.bloc[{kname} key](value)',
                                 'key': np.array(mask).T.tolist(), 'value': vname,
                                 'observed': 'raises ' + type(err).__name__ if err is not None else out.values.tolist()},
-                               s=sterm, py_fail=None if before == after else 'receiver changed by f.assign.bloc',
+                               m=mterm, s=sterm, py_fail=None if before == after else 'receiver changed by f.assign.bloc',
                                tags=bloc_tags(vname, kname, layout, eff_mask),
                                nontrivial=any(any(c) for c in emask))
 
@@ -1265,7 +1293,7 @@ def series_keys(n, ctx, full_cube=False):
         vals = [None] + list(range(-6, 7))
         out = [K('slice', (a, b, c)) for a, b, c in itertools.product(vals, vals, (None, 1, 2, 3, -1, -2, -3))]
     else:
-        out = list(slice_grid(n, 4 if ctx.tier == 'quick' else 6))
+        out = list(slice_grid(n, 3 if ctx.tier == 'quick' else 6))
     out += [ALL] + [K('int', i) for i in range(-n, n)]
     seqs = [p for r in range(0, n + 1) for p in itertools.permutations(range(n), r)]
     if len(seqs) > 24:
@@ -1415,7 +1443,7 @@ def go_alias_cases(ctx):
         for oname, op in ops:
             static = build_frame(dts, nrows, layout)
             want, werr = call(lambda: op(static))
-            for cls_name in ('FrameGO', 'Frame'):
+            for cls_name in ('FrameGO', 'Frame', 'FrameHE'):
                 f = build_frame(dts, nrows, layout, cls=getattr(sf, cls_name))
                 before = snapshot(f)
                 out, err = call(lambda: op(f))
@@ -1454,6 +1482,452 @@ def go_alias_cases(ctx):
                             'observed': 'raises ' + type(err).__name__ if err is not None else [lit.labels(out.columns), list(out.shape)]},
                            py_fail='; '.join(problems) or None, tags={'op': oname.split('(')[0].split('[')[0], 'receiver': cls_name, 'alias': True},
                            nontrivial=cls_name == 'FrameGO')
+
+
+# ---------------------------------------------------------------------------------------------- extension round: routes
+F_BLOCKEY = 'C08-bloc-frame-value-clears-callers-key'
+F_IHASTYPE = 'C08-index-hierarchy-astype-drops-name'
+U1, S2_, DTD, TDD = np.dtype('uint8'), np.dtype('S2'), np.dtype('datetime64[D]'), np.dtype('timedelta64[D]')
+
+
+def relate(labels, relation):
+    """labels of a value relative to the target's: same / reordered / partial (same length, one foreign) / smaller / larger"""
+    labels = list(labels)
+    if relation == 'same':
+        return labels
+    if relation == 'reordered':
+        return labels[::-1]
+    if relation == 'partial':
+        return (['q'] + labels[1:])[::-1] if len(labels) > 1 else ['q']
+    if relation == 'smaller':
+        return labels[1:][::-1] if len(labels) > 1 else labels
+    if relation == 'larger':
+        return ['p'] + labels[::-1] + ['q']
+    raise ValueError(relation)
+
+
+RELATIONS = ('same', 'reordered', 'partial', 'smaller', 'larger')
+
+
+def value_frame(ridx, cidx, layout_pick):
+    """an int64 Frame with the given labels whose columns sit in blocks chosen by layout_pick (0: all 1-D, 1: one 2-D block,
+    2: mixed) -- the value blocks reach the block walks as they are (get_block_match cuts them)"""
+    import static_frame as sf
+    n, m = len(ridx), len(cidx)
+    cols = [np.array([800 + 10 * j + i for i in range(n)], dtype=np.int64) for j in range(m)]
+    lays = list(zoo.layouts_for((I8,) * m))
+    layout = lays[0] if layout_pick == 0 else (lays[-1] if layout_pick == 1 else lays[len(lays) // 2])
+    fr = zoo.frame_from_columns(cols, layout, index=sf.Index(ridx, dtype=object if any(not isinstance(x, str) for x in ridx) else None),
+                                columns=sf.Index(cidx))
+    return fr, [[int(c[i]) for i in range(n)] for c in cols]
+
+
+def assign_value_relations_cases(ctx):
+    """assign through iloc / loc / getitem / bloc with Frame and Series values whose labels are the same as, a
+    reordering of, a same-shape partial overlap of, a subset of, a superset of the target's; value Frames hold their
+    columns in 1-D blocks, one 2-D block, or a mix"""
+    import static_frame as sf
+    nrows = 3
+    rot = 0
+    for pname in ('I', 'M'):
+        for m in ((2, 3) if ctx.tier == 'quick' else (1, 2, 3, 4)):
+            dts = POOLS[pname][:m]
+            for layout in few_layouts(dts):
+                f = build_frame(dts, nrows, layout)
+                oflit = oframe_lit(f)
+                rl, cl = list(f.index.values), list(f.columns.values)
+                for rel_r in RELATIONS:
+                    for rel_c in (RELATIONS if ctx.tier == 'thorough' else dict.fromkeys((rel_r, 'reordered'))):
+                        rot += 1
+                        # ---- Frame value over the whole frame / a sub-selection, label forms
+                        for rk, ck in ((ALL, ALL), (K('list', [2, 0]), K('list', [m - 1, 0]))):
+                            rps, cps = rk.positions(nrows), ck.positions(m)
+                            ridx = relate([rl[i] for i in rps], rel_r)
+                            cidx = relate([cl[j] for j in sorted(cps)], rel_c)
+                            if rel_c in ('partial', 'larger'):
+                                cidx = [c if c not in ('q', 'p') else 'k' + c for c in cidx]
+                            if not set(ridx) & set(rl[i] for i in rps) or not set(cidx) & set(cl):
+                                continue           # one axis disjoint: covered by the labelled stratum (fixed 658b4ce)
+                            vf, vcols = value_frame(ridx, cidx, rot % 3)
+                            aval = f'(AFrame {lit.vlist(ridx)} {lit.vlist(cidx)} {lit.lst([lit.vlist(c) for c in vcols])})'
+                            for form in ('iloc', 'loc', 'getitem'):
+                                sel = form_call(f, 'assign', form, rk if form != 'getitem' else NONE, ck, rl, cl)
+                                if sel is None or (form == 'getitem' and rk.kind != 'all'):
+                                    continue
+                                fn, text = sel
+                                before = snapshot(f)
+                                out, err = call(lambda: fn()(vf, fill_value=-1))
+                                after = snapshot(f)
+                                rk_c = rk if form != 'getitem' else NONE
+                                ctx.count(f'relations:frame:{rel_r}/{rel_c}', f'relations:form={form}', 'outcome:' + ('ok' if err is None else lit.err_class(err)))
+                                sterm = f'S_frame_assign_ok {oflit} {rk_c.ocoq()} {ck.ocoq()} {aval} (VInt (-1)) {oframe_lit(out)}' if err is None else 'false'
+                                yield Case(f'api:frame.assign.{form}(Frame value: labels {rel_r}/{rel_c})',
+                                           {'pool': pname, 'columns': m, 'layout': zoo.layout_str(layout), 'call': text + '(value Frame, fill_value=-1)',
+                                            'value_index': [str(x) for x in ridx], 'value_columns': [str(x) for x in cidx], 'value_layout': zoo.layout_str(zoo.layout_of(vf)),
+                                            'observed': 'raises ' + type(err).__name__ if err is not None else out.values.tolist()},
+                                           s=sterm, py_fail=None if before == after else 'receiver changed by ' + text,
+                                           tags={'op': 'assign', 'form': form, 'value': 'frame', 'rel': rel_r + '/' + rel_c})
+                        # ---- bloc: key True everywhere / checkerboard, value Frame related to the WHOLE frame
+                        ridx, cidx = relate(rl, rel_r), relate(cl, rel_c)
+                        if rel_c in ('partial', 'larger'):
+                            cidx = [c if c not in ('q', 'p') else 'k' + c for c in cidx]
+                        vf, vcols = value_frame(ridx, cidx, rot % 3)
+                        has = lambda i, j: rl[i] in ridx and cl[j] in cidx
+                        vmat = [[(vcols[cidx.index(cl[j])][ridx.index(rl[i])] if has(i, j) else None) for i in range(nrows)] for j in range(m)]
+                        for kname, kmask in (('all', [[True] * nrows for _ in range(m)]), ('checker', [[(i + j) % 2 == 0 for i in range(nrows)] for j in range(m)])):
+                            key0 = np.array(kmask, dtype=bool).T.reshape(nrows, m)
+                            karg = key0.copy()                   # the caller's own, writeable array
+                            emask = [[kmask[j][i] and has(i, j) for i in range(nrows)] for j in range(m)]
+                            before = snapshot(f)
+                            out, err = call(lambda: f.assign.bloc[karg](vf))
+                            after = snapshot(f)
+                            problems = [] if before == after else ['receiver changed by f.assign.bloc']
+                            tags = bloc_tags('frame', 'array', layout, kmask)
+                            tags['rel'] = rel_r + '/' + rel_c
+                            if not np.array_equal(karg, key0):
+                                problems.append('the caller\'s Boolean key array was modified in place')
+                            if any(kmask[j][i] and not has(i, j) for i in range(nrows) for j in range(m)) and 'finding' not in tags:
+                                tags['finding'] = F_BLOCKEY     # by construction: a writeable key that is True where the value Frame has no cell
+                            ctx.count(f'relations:bloc-frame:{rel_r}/{rel_c}', 'outcome:' + ('ok' if err is None else lit.err_class(err)))
+                            klit = lit.lst([lit.lst([lit.b(x) for x in col]) for col in kmask])
+                            mlit = lit.lst([lit.lst([lit.b(x) for x in col]) for col in emask])
+                            vlit = lit.lst([lit.vlist(col) for col in vmat])
+                            sterm = f'S_frame_bloc_ok {oflit} {klit} {mlit} {vlit} {oframe_lit(out)}' if err is None else 'false'
+                            yield Case(f'api:frame.assign.bloc(Frame value: labels {rel_r}/{rel_c})',
+                                       {'pool': pname, 'columns': m, 'layout': zoo.layout_str(layout), 'call': f'f.assign.bloc[{kname} writeable Boolean array](value Frame)',
+                                        'value_index': [str(x) for x in ridx], 'value_columns': [str(x) for x in cidx], 'value_layout': zoo.layout_str(zoo.layout_of(vf)),
+                                        'observed': 'raises ' + type(err).__name__ if err is not None else out.values.tolist()},
+                                       s=sterm, py_fail='; '.join(problems) or None, tags=tags)
+                    # ---- Series values (one addressed column / one addressed row), label forms
+                    for axis, rk, ck in (('rows', ALL, K('int', m - 1)), ('rows', K('list', [2, 0]), K('int', 0)), ('cols', K('int', 1), ALL)):
+                        rps, cps = rk.positions(nrows), ck.positions(m)
+                        target = [rl[i] for i in rps] if axis == 'rows' else [cl[j] for j in sorted(cps)]
+                        idx = relate(target, rel_r)
+                        vals = [900 + i for i in range(len(idx))]
+                        sv = sf.Series(vals, index=sf.Index(idx))
+                        aval = f'({"ARows" if axis == "rows" else "ACols"} {lit.vlist(idx)} {lit.vlist(vals)})'
+                        for form in ('iloc', 'loc', 'getitem'):
+                            if form == 'getitem' and not (axis == 'rows' and rk.kind == 'all'):
+                                continue
+                            sel = form_call(f, 'assign', form, rk if form != 'getitem' else NONE, ck, rl, cl)
+                            if sel is None:
+                                continue
+                            fn, text = sel
+                            before = snapshot(f)
+                            out, err = call(lambda: fn()(sv, fill_value=-1))
+                            after = snapshot(f)
+                            rk_c = rk if form != 'getitem' else NONE
+                            ctx.count(f'relations:series:{rel_r}', f'relations:form={form}', 'outcome:' + ('ok' if err is None else lit.err_class(err)))
+                            sterm = f'S_frame_assign_ok {oflit} {rk_c.ocoq()} {ck.ocoq()} {aval} (VInt (-1)) {oframe_lit(out)}' if err is None else 'false'
+                            yield Case(f'api:frame.assign.{form}(Series value: labels {rel_r})',
+                                       {'pool': pname, 'columns': m, 'layout': zoo.layout_str(layout), 'call': text + '(value Series, fill_value=-1)',
+                                        'value_index': [str(x) for x in idx], 'observed': 'raises ' + type(err).__name__ if err is not None else out.values.tolist()},
+                                       s=sterm, py_fail=None if before == after else 'receiver changed by ' + text,
+                                       tags={'op': 'assign', 'form': form, 'value': 'series', 'rel': rel_r})
+
+
+def hier_index(kind):
+    import static_frame as sf
+    if kind == 'product':
+        return sf.IndexHierarchy.from_product(('x', 'y'), (1, 2), name='h')
+    return sf.IndexHierarchy.from_labels([('x', 1), ('y', 2), ('z', 3)], name='h')
+
+
+def hierarchy_cases(ctx):
+    """the same interfaces on Frames / Series whose index or columns are an IndexHierarchy (labels are tuples), through
+    positions and through HLoc; relabel_flat / relabel_level_add / relabel_level_drop; Index / IndexGO / IndexHierarchy
+    drop, astype, rename, relabel"""
+    import static_frame as sf
+    ih = hier_index('product')
+    tups = [tuple(x) for x in ih.__iter__()]
+    # ---- hierarchical rows
+    for layout in few_layouts((I8, I8, F8)):
+        cols = [column(I8, 0, 4), column(I8, 1, 4), column(F8, 2, 4)]
+        f = zoo.frame_from_columns(cols, layout, index=ih, columns=sf.Index(COL_LABELS[:3]), name=NAME)
+        oflit = oframe_lit(f)
+        rows = [(K('list', [0, 3]), [0, 3]), (K('int', 2), sf.HLoc['y', 1]), (K('list', [0, 1]), sf.HLoc['x']), (K('mask', [False, True, True, False]), None),
+                (K('slice', (1, None, None)), None), (K('list', []), None)]
+        for rk, hloc in rows:
+            for ck in (NONE, K('int', 1), K('list', [2, 0])):
+                for op in ('drop', 'mask', 'assign'):
+                    forms = [('iloc', rk.py() if ck.kind == 'none' else (rk.py(), ck.py()))]
+                    if hloc is not None and not isinstance(hloc, list):
+                        lk = loc_key(ck, list(f.columns.values))
+                        forms.append(('loc', hloc if ck.kind == 'none' else (hloc, lk)))
+                    for form, key in forms:
+                        before = snapshot(f)
+                        if op == 'assign':
+                            out, err = call(lambda: getattr(f.assign, form)[key](-7))
+                        else:
+                            out, err = call(lambda: getattr(getattr(f, op), form)[key])
+                        after = snapshot(f)
+                        obs = res_lit(out, err, oframe_lit)
+                        if op == 'drop':
+                            sterm = f'res_agree oframe_eqb (S_frame_drop {oflit} {rk.ocoq()} {ck.ocoq()}) {obs}'
+                        elif op == 'mask':
+                            sterm = f'res_agree oframe_eqb_noname (S_frame_mask {oflit} {rk.ocoq()} {ck.ocoq()}) {obs}'
+                        else:
+                            sterm = f'S_frame_assign_ok {oflit} {rk.ocoq()} {ck.ocoq()} (AElem (VInt (-7))) VNaN {oframe_lit(out)}' if err is None else 'false'
+                        ctx.count(f'hier-rows:{op}.{form}', 'outcome:' + ('ok' if err is None else lit.err_class(err)))
+                        tags = {'op': op, 'form': form, 'hier': 'rows'}
+                        if op == 'drop' and ck.kind != 'none' and False:
+                            pass
+                        yield Case(f'api:frame(hierarchical index).{op}.{form}',
+                                   {'layout': zoo.layout_str(layout), 'call': f'f.{op}.{form}[{key!r}]', 'observed': 'raises ' + type(err).__name__ if err is not None else out.values.tolist()},
+                                   s=sterm, py_fail=None if before == after else f'receiver changed by f.{op}', tags=tags)
+        # relabel_* on the hierarchical index
+        L = lit.vlist(tups)
+        for rname, fn, want in [('relabel_flat(index=True)', lambda: f.relabel_flat(index=True), L),
+                                ('relabel_level_add(index="L")', lambda: f.relabel_level_add(index='L'),
+                                 f'(map (fun l => match l with VTup e => VTup (VStr "L" :: e) | x => x end) {L})'),
+                                ('rename(index="h2")', lambda: f.rename(index='h2'), L)]:
+            before = snapshot(f)
+            out, err = call(fn)
+            after = snapshot(f)
+            want_f = f'(mk_oframe {want} {lit.vlist(lit.labels(f.columns))} {cols_lit(f)} {lit.val(f.name)})'
+            py_fail = None if before == after else 'receiver changed by ' + rname
+            if err is None and not py_fail and rname.startswith('rename') and (out.index.name != 'h2' or f.index.name != 'h'):
+                py_fail = f'rename(index=) gives index name {out.index.name!r}, receiver {f.index.name!r}'
+            ctx.count('hier:' + rname.split('(')[0])
+            yield Case('api:frame(hierarchical index).relabel', {'layout': zoo.layout_str(layout), 'call': 'f.' + rname,
+                                                                'observed': 'raises ' + type(err).__name__ if err is not None else [list(map(str, x)) for x in lit.labels(out.index)]},
+                       s=f'res_agree oframe_eqb (Ok {want_f}) {res_lit(out, err, oframe_lit)}', py_fail=py_fail, tags={'op': 'relabel', 'hier': 'rows'})
+    # level_drop needs the inner level to be unique
+    ih2 = hier_index('labels')
+    f2 = sf.Frame.from_fields([[1, 2, 3], [4.5, 5.5, 6.5]], index=ih2, columns=('a', 'b'), name=NAME)
+    s2 = sf.Series([1, 2, 3], index=ih2, name='sn')
+    for rname, fn, obj in [('frame.relabel_level_drop(index=1)', lambda: f2.relabel_level_drop(index=1), f2), ('series.relabel_level_drop(1)', lambda: s2.relabel_level_drop(1), s2),
+                           ('series.relabel_level_drop(-1) inner', lambda: s2.relabel_level_drop(-1), s2), ('frame.relabel_level_drop(index=-1) inner', lambda: f2.relabel_level_drop(index=-1), f2),
+                           ('series.relabel_level_add("Z")', lambda: s2.relabel_level_add('Z'), s2), ('series.relabel_flat()', lambda: s2.relabel_flat(), s2)]:
+        before = snapshot(obj)
+        out, err = call(fn)
+        after = snapshot(obj)
+        L = lit.vlist([tuple(x) for x in ih2.__iter__()])
+        if 'inner' in rname:
+            want = f'(map (fun l => match l with VTup [a; _] => a | x => x end) {L})'
+        elif 'level_drop' in rname:
+            want = f'(map (fun l => match l with VTup [_; b] => b | x => x end) {L})'
+        elif 'level_add' in rname:
+            want = f'(map (fun l => match l with VTup e => VTup (VStr "Z" :: e) | x => x end) {L})'
+        else:
+            want = L
+        if obj is f2:
+            sterm = f'res_agree oframe_eqb (Ok (mk_oframe {want} {lit.vlist(["a", "b"])} {cols_lit(f2)} {lit.val(NAME)})) {res_lit(out, err, oframe_lit)}'
+        else:
+            sterm = f'res_agree oseries_eqb (Ok (mk_oseries {want} {lit.vlist([1, 2, 3])} {lit.dtype(s2.dtype)} (VStr "sn"))) {res_lit(out, err, lit.oseries)}'
+        ctx.count('hier:' + rname.split('(')[0])
+        yield Case('api:hierarchical.relabel_level', {'call': rname, 'observed': 'raises ' + type(err).__name__ if err is not None else [str(x) for x in lit.labels(out.index)]},
+                   s=sterm, py_fail=None if before == after else 'receiver changed by ' + rname, tags={'op': 'relabel', 'hier': 'levels'})
+    # ---- hierarchical columns: getitem / loc forms with HLoc, astype, insert
+    fc = sf.Frame(np.arange(8).reshape(2, 4), index=('r0', 'r1'), columns=ih, name=NAME)
+    fclit = oframe_lit(fc)
+    for ck, hloc in [(K('list', [0, 1]), sf.HLoc['x']), (K('int', 3), sf.HLoc['y', 2]), (K('list', [2, 3]), sf.HLoc['y'])]:
+        for op in ('drop', 'mask', 'assign', 'astype'):
+            before = snapshot(fc)
+            if op == 'assign':
+                out, err = call(lambda: fc.assign[hloc](-7))
+                sterm = f'S_frame_assign_ok {fclit} None {ck.ocoq()} (AElem (VInt (-7))) VNaN {oframe_lit(out)}' if err is None else 'false'
+            elif op == 'astype':
+                out, err = call(lambda: fc.astype[hloc](float))
+                sterm = f'res_agree oframe_eqb (S_frame_astype {fclit} {ck.coq()} (DFlt 8)) {res_lit(out, err, oframe_lit)}'
+            elif op == 'drop':
+                out, err = call(lambda: fc.drop[hloc])
+                sterm = f'res_agree oframe_eqb (S_frame_drop {fclit} None {ck.ocoq()}) {res_lit(out, err, oframe_lit)}'
+            else:
+                out, err = call(lambda: fc.mask[hloc])
+                sterm = f'res_agree oframe_eqb_noname (S_frame_mask {fclit} None {ck.ocoq()}) {res_lit(out, err, oframe_lit)}'
+            after = snapshot(fc)
+            ctx.count(f'hier-columns:{op}', 'outcome:' + ('ok' if err is None else lit.err_class(err)))
+            yield Case(f'api:frame(hierarchical columns).{op}.getitem', {'call': f'f.{op}[{hloc!r}]', 'observed': 'raises ' + type(err).__name__ if err is not None else out.values.tolist()},
+                       s=sterm, py_fail=None if before == after else f'receiver changed by f.{op}', tags={'op': op, 'hier': 'columns'})
+    ins = sf.Series((5, 6), index=('r0', 'r1'), name=('x', 3))
+    for meth, key in (('insert_after', 2), ('insert_before', 1)):
+        before = snapshot(fc)
+        out, err = call(lambda: getattr(fc, meth)(('x', 2), ins))
+        after = snapshot(fc)
+        sterm = f'S_frame_insert_ok {fclit} {lit.z(key)} {lit.vlist([("x", 3)])} {lit.lst([lit.vlist([5, 6])])} {oframe_lit(out)}' if err is None else 'false'
+        ctx.count('hier-columns:' + meth)
+        yield Case(f'api:frame(hierarchical columns).{meth}', {'call': f'f.{meth}(("x", 2), Series named ("x", 3))', 'observed': 'raises ' + type(err).__name__ if err is not None else [str(x) for x in lit.labels(out.columns)]},
+                   s=sterm, py_fail=None if before == after else f'receiver changed by f.{meth}', tags={'op': meth, 'hier': 'columns'})
+    # ---- Index / IndexGO / IndexHierarchy: drop, astype, rename, relabel
+    for cls in (sf.Index, sf.IndexGO):
+        ix = cls(('a', 'b', 'c', 'd'), name='n')
+        lab = list(ix.values)
+        for k in [K('int', 0), K('int', -1), K('list', [2, 0]), K('slice', (1, 3, None)), K('mask', [True, False, False, True]), K('list', []), K('slice', (None, None, -2))]:
+            for form in ('iloc', 'loc'):
+                lk = loc_key(k, lab) if form == 'loc' else k.py()
+                if form == 'loc' and (lk is None or has_negative(k)):
+                    continue
+                before = (list(ix.values), ix.name)
+                out, err = call(lambda: getattr(ix.drop, form)[lk])
+                py_fail = None if (list(ix.values), ix.name) == before else 'receiver Index changed by drop'
+                if err is None and not py_fail and (out.name != 'n' or out.__class__ is not cls or (cls is sf.IndexGO and out is ix)):
+                    py_fail = f'Index.drop result: name {out.name!r}, class {out.__class__.__name__}, same object {out is ix}'
+                ctx.count(f'index.drop.{form}')
+                obs = f'(Ok {lit.vlist(lit.labels(out))})' if err is None else f'(Err {lit.s(lit.err_class(err))})'
+                yield Case(f'api:index.drop.{form}', {'class': cls.__name__, 'call': f'ix.drop.{form}[{lk!r}]', 'observed': 'raises ' + type(err).__name__ if err is not None else lit.labels(out)},
+                           s=f'res_agree vlist_eqb (match key_positions {k.coq()} 4 with Ok ps => Ok (S_drop_at {lit.vlist(lab)} ps) | Err e => Err e end) {obs}',
+                           py_fail=py_fail, tags={'op': 'drop', 'container': 'index'})
+        ixn = cls((1, 2, 3), name='n')
+        for nm, fn, want, wname in [('astype(float)', lambda: ixn.astype(float), f'(map (conv_val (DFlt 8)) {lit.vlist([1, 2, 3])})', 'n'),
+                                    ('astype(object)', lambda: ixn.astype(object), lit.vlist([1, 2, 3]), 'n'),
+                                    ('rename("z")', lambda: ixn.rename('z'), lit.vlist([1, 2, 3]), 'z'),
+                                    ('relabel({1: 10})', lambda: ixn.relabel({1: 10}), lit.vlist([10, 2, 3]), 'n'),
+                                    ('relabel(lambda)', lambda: ixn.relabel(lambda x: x * 2), lit.vlist([2, 4, 6]), 'n')]:
+            out, err = call(fn)
+            py_fail = None if (list(ixn.values), ixn.name) == ([1, 2, 3], 'n') else 'receiver Index changed by ' + nm
+            if err is None and not py_fail and (out.name != wname or (cls is sf.IndexGO and out is ixn)):
+                py_fail = f'Index.{nm}: name {out.name!r} (expected {wname!r}), same object {out is ixn}'
+            ctx.count('index.' + nm.split('(')[0])
+            obs = f'(Ok {lit.vlist(lit.labels(out))})' if err is None else f'(Err {lit.s(lit.err_class(err))})'
+            yield Case('api:index.' + nm.split('(')[0], {'class': cls.__name__, 'call': 'ix.' + nm, 'observed': 'raises ' + type(err).__name__ if err is not None else lit.labels(out)},
+                       s=f'res_agree vlist_eqb (Ok {want}) {obs}', py_fail=py_fail, tags={'op': nm.split('(')[0], 'container': 'index'})
+    L = lit.vlist(tups)
+    for nm, fn, want, wname in [('astype[1](float)', lambda: ih.astype[1](float), f'(map (fun l => match l with VTup [a; b] => VTup [a; conv_val (DFlt 8) b] | x => x end) {L})', 'h'),
+                                ('astype(object)', lambda: ih.astype(object), L, 'h'),
+                                ('rename("q")', lambda: ih.rename('q'), L, 'q'),
+                                ('relabel(lambda)', lambda: ih.relabel(lambda l: (l[0] + l[0], l[1])),
+                                 f'(map (fun l => match l with VTup [VStr a; b] => VTup [VStr (a ++ a); b] | x => x end) {L})', 'h'),
+                                ('relabel(mapping)', lambda: ih.relabel({('x', 2): ('x', 5)}),
+                                 lit.vlist([(('x', 5) if t == ('x', 2) else t) for t in tups]), 'h')]:
+        out, err = call(fn)
+        py_fail = None if ([tuple(x) for x in ih.__iter__()], ih.name) == (tups, 'h') else 'receiver IndexHierarchy changed by ' + nm
+        if err is None and not py_fail and out.name != wname:
+            py_fail = f'IndexHierarchy.{nm}: name {out.name!r}, expected {wname!r}'
+        ih_tags = {'op': nm.split('(')[0], 'container': 'index_hierarchy'}
+        if nm.startswith('astype'):
+            ih_tags['finding'] = F_IHASTYPE         # by construction: astype of a NAMED IndexHierarchy
+        ctx.count('index_hierarchy.' + nm.split('(')[0].split('[')[0])
+        obs = f'(Ok {lit.vlist(lit.labels(out))})' if err is None else f'(Err {lit.s(lit.err_class(err))})'
+        yield Case('api:index_hierarchy.' + nm.split('(')[0].split('[')[0], {'call': 'ih.' + nm, 'observed': 'raises ' + type(err).__name__ if err is not None else [str(x) for x in lit.labels(out)]},
+                   s=f'res_agree vlist_eqb (Ok {want}) {obs}', py_fail=py_fail, tags=ih_tags)
+
+
+def dtype_kind_cases(ctx):
+    """unsigned / bytes / datetime64 / timedelta64 / object-with-None columns, 0-row frames, FrameHE and SeriesHE receivers,
+    masked_array: drop / mask / astype / assign through the block walks (M and S)"""
+    import static_frame as sf
+    kinds = (U1, S2_, DTD, TDD)
+    for nrows in (2, 0):
+        for dts in (kinds, (U1, U1, DTD, DTD), (OB, OB, S2_, TDD)):
+            lays = list(zoo.layouts_for(dts))
+            for layout in (lays if ctx.tier == 'thorough' else list(dict.fromkeys([lays[0], lays[len(lays) // 2], lays[-1]]))):
+                for cls_name in (('Frame', 'FrameHE') if nrows else ('Frame',)):
+                    f = build_frame(dts, nrows, layout, cls=getattr(sf, cls_name))
+                    flit, oflit = mframe_lit(f), oframe_lit(f)
+                    m = 4
+                    rks = [NONE, K('int', -1), K('list', [1, 0])] if nrows else [NONE, K('list', []), ALL]
+                    for i, ck in enumerate([K('int', 2), K('list', [3, 0]), K('slice', (None, None, -2)), K('mask', [False, True, True, False]), ALL, K('list', [])]):
+                        rk = rks[i % len(rks)]
+                        key = (rk.py(), ck.py())
+                        for op in ('drop', 'mask', 'assign'):
+                            before = snapshot(f)
+                            tags = {'op': op, 'form': 'iloc', 'ckind': ck.kind, 'rkind': rk.kind, 'dtypes': 'exotic', 'receiver': cls_name}
+                            if op == 'assign':
+                                value = None
+                                out, err = call(lambda: f.assign.iloc[key](value))
+                                obs = res_lit(out, err, ofl_lit)
+                                mterm = (f'res_same ofl_same (M_frame_assign_unit {flit} {rk.ocoq()} {ck.ocoq()} false {lit.b(ck.kind != "int")} false '
+                                         f'(AElem VNone) DObj {RESOLVE}) {obs}')
+                                sterm = f'S_frame_assign_ok {oflit} {rk.ocoq()} {ck.ocoq()} (AElem VNone) VNaN {oframe_lit(out)}' if err is None else 'false'
+                            else:
+                                out, err = call(lambda: getattr(f, op).iloc[key])
+                                tags.update(classify(op, ck, rk, m, nrows))
+                                obs = res_lit(out, err, ofl_lit)
+                                if op == 'drop':
+                                    mterm = f'res_same ofl_eqb (M_frame_drop {flit} {rk.ocoq()} {ck.ocoq()}) {obs}'
+                                    sterm = f'res_agree of_eqb_ofl (S_frame_drop {oflit} {rk.ocoq()} {ck.ocoq()}) {obs}'
+                                else:
+                                    mterm = f'res_same ofl_eqb_noname (M_frame_mask {flit} {rk.ocoq()} {ck.ocoq()}) {obs}'
+                                    sterm = f'res_agree of_eqb_ofl_noname (S_frame_mask {oflit} {rk.ocoq()} {ck.ocoq()}) {obs}'
+                            after = snapshot(f)
+                            py_fail = None if before == after else f'receiver changed by f.{op}'
+                            if err is None and not py_fail and out.__class__ is not f.__class__:
+                                py_fail = f'result class {out.__class__.__name__} for a {cls_name} receiver'
+                            ctx.count(f'kinds:{op}', f'kinds:rows={nrows}', f'kinds:{cls_name}', 'outcome:' + ('ok' if err is None else lit.err_class(err)))
+                            yield Case(f'api:{cls_name.lower()}(exotic dtypes).{op}.iloc',
+                                       {'dtypes': [str(d) for d in dts], 'rows': nrows, 'layout': zoo.layout_str(layout), 'call': f'f.{op}.iloc[{key!r}]' + ('(None)' if op == 'assign' else ''),
+                                        'observed': 'raises ' + type(err).__name__ if err is not None else [str(a.dtype) for a in frame_columns(out)]},
+                                       m=mterm, s=sterm, py_fail=py_fail, tags=tags)
+    # masked_array: the mask of the result is the mask Frame, the data are the values
+    for layout in few_layouts(POOLS['I'][:3]):
+        f = build_frame(POOLS['I'][:3], 3, layout)
+        oflit = oframe_lit(f)
+        for rk, ck in ((K('int', 1), NONE), (K('list', [2, 0]), K('int', 1)), (ALL, K('list', [2, 0])), (NONE, K('list', [1]))):
+            for form in ('iloc', 'loc', 'getitem'):
+                sel = form_call(f, 'masked_array', form, rk, ck, list(f.index.values), list(f.columns.values))
+                if sel is None:
+                    continue
+                fn, text = sel
+                before = snapshot(f)
+                out, err = call(fn)
+                after = snapshot(f)
+                py_fail = None if before == after else 'receiver changed by ' + text
+                if err is None:
+                    mk = sf.Frame(np.array(out.mask), index=f.index, columns=f.columns)
+                    if not np.array_equal(np.array(out.data), f.values):
+                        py_fail = py_fail or 'masked_array data differ from the values'
+                    obs = f'(Ok {oframe_lit(mk)})'
+                else:
+                    obs = f'(Err {lit.s(lit.err_class(err))})'
+                ctx.count('masked_array:' + form)
+                yield Case(f'api:frame.masked_array.{form}', {'layout': zoo.layout_str(layout), 'call': text, 'observed': 'raises ' + type(err).__name__ if err is not None else np.array(out.mask).tolist()},
+                           s=f'res_agree oframe_eqb_noname (S_frame_mask {oflit} {rk.ocoq()} {ck.ocoq()}) {obs}', py_fail=py_fail, tags={'op': 'masked_array', 'form': form})
+    for cls in (sf.Series, sf.SeriesHE):
+        sr = cls(column(I8, 1, 4), index=sf.Index(ROW_LABELS[:4]), name='sn')
+        slit = lit.oseries(sr)
+        for k in (K('int', -1), K('list', [2, 0]), K('slice', (None, None, -2)), K('mask', [True, False, False, True])):
+            before = snapshot(sr)
+            lk = loc_key(k, list(sr.index.values)) if not has_negative(k) else None
+            out, err = call((lambda: sr.masked_array.loc[lk]) if lk is not None else (lambda: sr.masked_array.iloc[k.py()]))
+            obs = f'(Ok (mk_oseries {lit.vlist(lit.labels(sr.index))} {lit.vlist(np.array(out.mask).tolist())} DBool VNone))' if err is None else f'(Err {lit.s(lit.err_class(err))})'
+            ctx.count('masked_array:series')
+            yield Case('api:series.masked_array.iloc', {'class': cls.__name__, 'call': f's.masked_array.iloc[{k.py()!r}]', 'observed': 'raises ' + type(err).__name__ if err is not None else np.array(out.mask).tolist()},
+                       s=f'res_agree oseries_eqb_noname (S_series_mask {slit} {k.coq()}) {obs}',
+                       py_fail=None if snapshot(sr) == before else 'receiver changed by masked_array', tags={'op': 'masked_array', 'container': 'series'})
+            for op in ('drop', 'mask', 'assign'):
+                out, err = call((lambda: sr.assign.iloc[k.py()](0)) if op == 'assign' else (lambda: getattr(sr, op).iloc[k.py()]))
+                py_fail = None if snapshot(sr) == before else f'receiver changed by s.{op}'
+                if err is None and not py_fail and out.__class__ is not cls:
+                    py_fail = f'result class {out.__class__.__name__} for a {cls.__name__} receiver'
+                obs = res_lit(out, err, lit.oseries)
+                sterm = (f'res_agree oseries_eqb (S_series_drop {slit} (Some {k.coq()})) {obs}' if op == 'drop' else
+                         f'res_agree oseries_eqb_noname (S_series_mask {slit} {k.coq()}) {obs}' if op == 'mask' else
+                         (f'S_series_assign_ok {slit} {k.coq()} (AElem (VInt 0)) VNaN {lit.oseries(out)}' if err is None else 'false'))
+                ctx.count(f'series-class:{cls.__name__}:{op}')
+                yield Case(f'api:{cls.__name__.lower()}.{op}.iloc(class kept)', {'class': cls.__name__, 'call': f's.{op}.iloc[{k.py()!r}]',
+                                                                              'observed': 'raises ' + type(err).__name__ if err is not None else out.values.tolist()},
+                           s=sterm, py_fail=py_fail, tags={'op': op, 'container': cls.__name__})
+
+
+def malformed_bloc_cases(ctx):
+    """bloc keys outside the domain (wrong shape, not Boolean, not an array / Frame) and key objects the block walk
+    cannot handle: the call must raise and leave the receiver as it was"""
+    import static_frame as sf
+    for layout in few_layouts(POOLS['I'][:3]):
+        f = build_frame(POOLS['I'][:3], 3, layout)
+        bad = [('array of the wrong shape', np.zeros((2, 3), dtype=bool)), ('integer array', np.zeros((3, 3), dtype=np.int64)),
+               ('list of lists', [[True] * 3] * 3), ('integer Frame', sf.Frame(np.zeros((3, 3), dtype=np.int64), index=f.index, columns=f.columns)),
+               ('1-D Boolean array', np.zeros(3, dtype=bool))]
+        for name, key in bad:
+            before = snapshot(f)
+            out, err = call(lambda: f.assign.bloc[key](0))
+            py_fail = None if snapshot(f) == before else 'receiver changed by a failing f.assign.bloc'
+            if err is None:
+                py_fail = py_fail or f'f.assign.bloc[{name}] was accepted'
+            ctx.count('malformed:bloc-key', 'outcome:' + ('ok' if err is None else lit.err_class(err)))
+            yield Case('malformed:frame.assign.bloc', {'layout': zoo.layout_str(layout), 'call': f'f.assign.bloc[{name}](0)', 'observed': 'raises ' + type(err).__name__ if err is not None else 'returns'},
+                       py_fail=py_fail, tags={'op': 'assign', 'form': 'bloc', 'malformed': True})
+        for name, key in [('a set', {0, 1}), ('a float', 1.5), ('a dict', {0: 1})]:
+            for op in ('drop', 'mask', 'assign'):
+                before = snapshot(f)
+                out, err = call((lambda: f.assign.iloc[:, key](0)) if op == 'assign' else (lambda: getattr(f, op).iloc[:, key]))
+                py_fail = None if snapshot(f) == before else f'receiver changed by a failing f.{op}'
+                if err is None:
+                    py_fail = py_fail or f'f.{op}.iloc[:, {name}] was accepted'
+                ctx.count('malformed:key-type', 'outcome:' + ('ok' if err is None else lit.err_class(err)))
+                yield Case(f'malformed:frame.{op}.iloc(key type)', {'layout': zoo.layout_str(layout), 'call': f'f.{op}.iloc[:, {name}]', 'observed': 'raises ' + type(err).__name__ if err is not None else 'returns'},
+                           py_fail=py_fail, tags={'op': op, 'malformed': True})
 
 
 # ---------------------------------------------------------------------------------------------- malformed keys / values
@@ -1704,6 +2178,10 @@ def cases(ctx):
     yield from assign_bloc_cases(ctx)
     yield from assign_bloc_coordinate_cases(ctx)
     yield from go_alias_cases(ctx)
+    yield from assign_value_relations_cases(ctx)
+    yield from hierarchy_cases(ctx)
+    yield from dtype_kind_cases(ctx)
+    yield from malformed_bloc_cases(ctx)
     yield from drop_mask_forms_cases(ctx)
     yield from astype_cases(ctx)
     yield from insert_cases(ctx)
